@@ -9,21 +9,21 @@ export GOFLAGS=-mod=mod GOPROXY=off
 cd $W || exit 2
 git checkout -q -- . ; git clean -fdq -e out
 tests=$(ls $D/*_test.go 2>/dev/null)
-pkgdir=.
+pkgdir=.; placed=""; dirs=""
 # package dir from the package clause
 for t in $tests; do
-  pk=$(grep -m1 '^package ' $t | awk '{print $2}')
+  pk=$(grep -m1 '^package ' $t | awk '{print $2}'); pk=${pk%_test}
   case $pk in originium) pkgdir=. ;; wal) pkgdir=wal ;; table) pkgdir=table ;; watermark) pkgdir=pkg/watermark ;; skiplist) pkgdir=pkg/skiplist ;; filter) pkgdir=pkg/filter ;; kway) pkgdir=pkg/kway ;; types) pkgdir=types ;; utils) pkgdir=utils ;; bufferpool) pkgdir=pkg/bufferpool ;; esac
-  cp $t $pkgdir/
+  cp $t $pkgdir/; placed="$placed $pkgdir/$(basename $t)"; dirs="$dirs ./$pkgdir"
 done
 names=$(grep -h '^func Test' $tests | sed 's/func \(Test[A-Za-z0-9_]*\).*/\1/' | paste -sd'|')
 echo "[$P/$M] pkg=$pkgdir tests=$names"
-go test -count=1 "$@" -run "^($names)\$" ./$pkgdir > /tmp/confirm-$P-$M-clean.log 2>&1; c1=$?
+go test -count=1 "$@" -run "^($names)\$" $(echo $dirs | tr " " "\n" | sort -u) > /tmp/confirm-$P-$M-clean.log 2>&1; c1=$?
 git apply $D/patch.diff || { echo "[$P/$M] PATCH DOES NOT APPLY"; exit 1; }
 go build ./... > /tmp/confirm-$P-$M-build.log 2>&1; cb=$?
-go test -count=1 "$@" -run "^($names)\$" ./$pkgdir > /tmp/confirm-$P-$M-mut.log 2>&1; c2=$?
+go test -count=1 "$@" -run "^($names)\$" $(echo $dirs | tr " " "\n" | sort -u) > /tmp/confirm-$P-$M-mut.log 2>&1; c2=$?
 # the existing suite (without the demo files)
-for t in $tests; do rm -f $pkgdir/$(basename $t); done
+rm -f $placed
 go test -count=1 ./... > /tmp/confirm-$P-$M-suite.log 2>&1; c3=$?
 git checkout -q -- . ; git clean -fdq -e out
 echo "[$P/$M] demo on clean tree: exit $c1 (want 0); build with change: $cb (want 0); demo with change: exit $c2 (want != 0); suite with change: exit $c3 (want 0)"
